@@ -32,8 +32,8 @@ WRITERS = ["rl", "odf"]
 CID = "0123456789abcdef"
 REAL_ID = {"mk": CID + ":makezip", "rl": CID + ":render-rl", "odf": CID + ":render-odf"}
 
-PROPS_INV = ["TypeOK", "FinishedOnlyIfSucceeded", "FailedIffError", "FailedShowsError", "ProgressOtherwise", "ProgressSource"]
-PROPS_ACT = ["WriterIsolation", "Final"]
+PROPS_INV = ["TypeOK", "UnfinishedIsBound", "FinishedOnlyIfSucceeded", "FailedIffError", "FailedShowsError", "ProgressOtherwise", "ProgressSource"]
+PROPS_ACT = ["WriterIsolation", "Final", "OneJobPerId"]
 
 FILENAMES = [
     None, "", "   ", "plain", "My Book", "a;b:c\"d'e,f", "Café München", "中文书", "Жук x",
